@@ -100,21 +100,23 @@ def run(stmts, init, transfer, seen=None):
             res = {k: set(v) for k, v in r.items()}
             raised = res.pop('raise', set())
             hin = inner | raised | set(cur)
+            hf = set()                       # values at which a handler falls through (these skip orelse)
             if st.handlers:
                 for h in st.handlers:
                     hr = run(h.body, hin, transfer, seen)
                     for k, v in hr.items():
-                        res.setdefault(k, set()).update(v)
+                        if k == 'fall':
+                            hf.update(v)
+                        else:
+                            res.setdefault(k, set()).update(v)
             else:
                 res.setdefault('raise', set()).update(raised)
             if st.orelse:
-                f = res.pop('fall', set())
+                res.pop('fall', None)
                 er = run(st.orelse, r.get('fall', set()), transfer, seen)
-                # handler fall-throughs skip orelse
-                hf = f - r.get('fall', set())
                 for k, v in er.items():
                     res.setdefault(k, set()).update(v)
-                res.setdefault('fall', set()).update(hf)
+            res.setdefault('fall', set()).update(hf)
             if st.finalbody:
                 fin = {}
                 for k, v in res.items():
